@@ -384,8 +384,11 @@ def _const_metric(kind: str, dim: int, rng):
         base_kind = str(rng.choice(["dense", "chol_lower", "eig", "diag", "lowrank_plus", "block", "product", "softabs_const"]))
         m, d = _const_metric(base_kind, dim, rng)
         ops = []
-        for _ in range(int(rng.integers(1, 4))):
-            op = str(rng.choice(["touch", "scale", "div", "inv", "rscale"]))
+        templates = [["touch", "scale"], ["touch", "div"], ["inv", "scale"], ["touch", "inv", "rscale"], ["scale", "touch", "div"],
+                     ["inv", "touch", "inv"], ["touch", "rscale", "inv"]]
+        plan = templates[int(rng.integers(0, len(templates)))] if rng.integers(0, 5) < 3 else \
+            [str(rng.choice(["touch", "scale", "div", "inv", "rscale"])) for _ in range(int(rng.integers(1, 4)))]
+        for op in plan:
             ops.append(op)
             if op == "touch":
                 _ = m.sqrt, m.log_abs_det  # noqa: F841
